@@ -34,6 +34,7 @@ type Obligation struct {
 }
 
 type VC struct {
+	SizeHints   []string // Bool terms bounding the sizes of the inputs (used only to hunt for a small counter-model)
 	FuncName    string
 	decls       []string
 	declared    map[string]bool
